@@ -104,6 +104,22 @@ enum Exp {
 
 const MONTHS: [(&str, i64); 15] = [("jan", 1), ("feb", 2), ("mar", 3), ("apr", 4), ("may", 5), ("jun", 6), ("june", 6), ("jul", 7), ("july", 7), ("aug", 8), ("sep", 9), ("sept", 9), ("oct", 10), ("nov", 11), ("dec", 12)];
 
+/// `%Y-%m-%d %H:%M:%S` with any amount of ASCII whitespace between the items and an optional sign on the year
+fn lenient_ts(text: &str) -> Option<i64> {
+    thread_local! {
+        static RE: regex::Regex = regex::Regex::new(r"^[ \t]*([+-]?[0-9]{1,6})[ \t]*-[ \t]*([0-9]{1,2})[ \t]*-[ \t]*([0-9]{1,2})[ \t]*([0-9]{1,2})[ \t]*:[ \t]*([0-9]{1,2})[ \t]*:[ \t]*([0-9]{1,2})[ \t]*$").unwrap();
+    }
+    RE.with(|re| {
+        let c = re.captures(text)?;
+        let n = |i: usize| c.get(i).unwrap().as_str().parse::<i64>().ok();
+        // seconds = 60 is chrono's leap-second notation (kept as 59 s + 1 s): open as well
+        if n(6)? == 60 {
+            return civil_to_micros(n(1)?, n(2)?, n(3)?, n(4)?, n(5)?, 59, 0).map(|x| x + 1_000_000);
+        }
+        civil_to_micros(n(1)?, n(2)?, n(3)?, n(4)?, n(5)?, n(6)?, 0)
+    })
+}
+
 fn ref_col<'a>(t: &Table, c: &Col, line: &'a str, cache: &mut Vec<Option<Option<Vec<Option<&'a str>>>>>) -> Exp {
     let default = if c.modifier == "DEFAULT" { default_of(c.ty).1 } else { RVal::Null };
     let scalar = |ty: &str, r: (usize, usize), dflt: RVal, cache: &mut Vec<Option<Option<Vec<Option<&'a str>>>>>| -> Exp {
@@ -113,7 +129,15 @@ fn ref_col<'a>(t: &Table, c: &Col, line: &'a str, cache: &mut Vec<Option<Option<
         }
         match g {
             None => Exp::Is(dflt),
-            Some(text) => Exp::Is(parse_literal(ty, text).unwrap_or(RVal::Null)),
+            Some(text) => match parse_literal(ty, text) {
+                Some(v) => Exp::Is(v),
+                None if ty == "timestamp" => match lenient_ts(text) {
+                    // the amount of whitespace and a sign on the year are open points of the format grammar
+                    Some(ts) => Exp::OneOf(vec![RVal::Null, RVal::Ts(ts)]),
+                    None => Exp::Is(RVal::Null),
+                },
+                None => Exp::Is(RVal::Null),
+            },
         }
     };
     if let Some(el) = c.ty.strip_suffix("[]") {
@@ -408,6 +432,53 @@ pub fn run(ctx: &Ctx) -> i32 {
     let two = Table { patterns: vec![cap("a", P1), cap("b", P2), Pattern { name: "_pattern2".into(), regex: "id=(\\d+)".into(), split: false, inline: true }], cols: vec![Col { refs: vec![(0, 2)], ty: "int", modifier: "" }, Col { refs: vec![(1, 1)], ty: "int", modifier: "" }, Col { refs: vec![(1, 2)], ty: "text", modifier: "DEFAULT" }, Col { refs: vec![(2, 1)], ty: "int", modifier: "" }, Col { refs: vec![(1, 0)], ty: "text", modifier: "" }] };
     for l in ["k=5 12-ab id=9", "12-ab", "k=5", "id=9", "x 1-a 2-b", "٣-x k=1", "99999999999999999999-z", "k=1 id=٣", "", "k= 7-é_ id=1 id=2"] {
         work.push((two.clone(), l.to_string(), "F-multi-pattern"));
+    }
+    // TIMESTAMP / array columns whose references span two patterns (either may fail to match on its own)
+    let day = cap("day", "(\\d+)-(\\d+)-(\\d+)");
+    let clock = cap("clock", "([A-Za-z]+) (\\d+):(\\d+)");
+    for refs in [
+        vec![(0usize, 1usize), (0, 2), (0, 3), (1, 2), (1, 3)],
+        vec![(1, 2), (0, 2), (0, 3), (1, 3), (0, 1)],
+        vec![(0, 1), (1, 1), (0, 3)],
+        vec![(0, 1), (0, 2), (1, 2)],
+    ] {
+        for (ty, m) in [("timestamp", ""), ("timestamp", "DEFAULT"), ("int[]", ""), ("text[]", "")] {
+            let t = Table { patterns: vec![day.clone(), clock.clone()], cols: vec![Col { refs: refs.clone(), ty, modifier: m }, Col { refs: vec![(1, 1)], ty: "text", modifier: "" }] };
+            for l in ["2021-06-01 at Tue 16:55", "2021-06-01", "Tue 16:55", "at Jan 16:55 x 2021-06-01", "11-12-13 Feb 10:20", "2021-06-01 Tue 99:99", "13-14-15 Mar 3:4", "", "Tue 1:2 2000-2-30"] {
+                work.push((t.clone(), l.to_string(), "F-multi-pattern"));
+            }
+        }
+    }
+    // TIMESTAMP read from one group: every single-character substitution / deletion / insertion of a valid literal
+    {
+        let base: Vec<char> = "2021-06-01 16:55:11".chars().collect();
+        let alpha = ['+', '-', '.', ':', ' ', 'x', '0', '9', 'T', '/', '٣'];
+        let mut toks: Vec<String> = vec![base.iter().collect(), "2021-06-01 16:55".into(), "2021-06-01".into(), "2021-06-01 16:55:11.5".into(), "2021-06-01 16:55:11 x".into(), "2021-02-29 00:00:00".into(), "2020-02-29 00:00:00".into(), "2021-06-01 24:00:00".into(), "2021-06-01 23:59:60".into(), "2021-13-01 00:00:00".into(), "2021-00-10 00:00:00".into(), "2021-06-31 00:00:00".into()];
+        for i in 0..=base.len() {
+            for a in alpha {
+                let mut ins = base.clone();
+                ins.insert(i, a);
+                toks.push(ins.iter().collect());
+                if i < base.len() && base[i] != a {
+                    let mut sub = base.clone();
+                    sub[i] = a;
+                    toks.push(sub.iter().collect());
+                }
+            }
+            if i < base.len() {
+                let mut del = base.clone();
+                del.remove(i);
+                toks.push(del.iter().collect());
+            }
+        }
+        toks.sort();
+        toks.dedup();
+        for m in ["", "DEFAULT"] {
+            let t = Table { patterns: vec![cap("l", "^ts=(.*);$")], cols: vec![Col { refs: vec![(0, 1)], ty: "timestamp", modifier: m }] };
+            for tk in &toks {
+                work.push((t.clone(), format!("ts={};", tk), "G-timestamp-literal"));
+            }
+        }
     }
     let total = work.len() as u64;
     let (done, complete) = par_for_budget(ctx, total, 256, |idx| {
